@@ -103,6 +103,12 @@ func IsStaleRead(
 		// FSM index is the same as the commit index, so we're caught up.
 		return false
 	}
+	if fsmIndex > commitIndex {
+		// The commit index only tracks command entries received since this node
+		// started, so it can trail the FSM index (e.g. after a restart). The
+		// node is not behind in that case.
+		return false
+	}
 	// OK, we're not caught up. So was the log that last updated our local FSM
 	// appended by the Leader to its log within the freshness window?
 	return lastFSMUpdateTime.Sub(lastAppendedAtTime).Nanoseconds() > freshness
